@@ -76,6 +76,8 @@ def apply(r, proj: dict, front_end: str, n: int) -> list[str]:
                 dotted = ["../" + parts[-2] + "/" + base, "./../" + parts[-2] + "/./" + base]
             spelled = r.choice([base, "./" + base] + dotted + dotted)
             _append(files, doc, _inc(spelled, r.choice([None, {"start-line": "1"}, {"heading-offset": "1"}])))
+            if r.random() < 0.4:  # the cycle is entered a second time after it was reported once
+                _append(files, doc, "between\n\n" + _inc(base))
         elif h in ("cycle2", "cycle3"):
             n_c = 2 if h == "cycle2" else 3
             names = [f"inc/cyc{n_c}_{i}.inc" for i in range(n_c)]
@@ -86,6 +88,8 @@ def apply(r, proj: dict, front_end: str, n: int) -> list[str]:
                     nxt = r.choice(["./", "../inc/", "../files/../inc/"]) + nxt
                 files[nm] = f"cycle member {i}\n\n" + _inc(nxt) + "\n"
             _append(files, doc, _inc(rel(names[0])))
+            if r.random() < 0.4:  # the cycle is entered a second time after it was reported once
+                _append(files, doc, "between\n\n" + _inc(rel(names[r.randrange(n_c)])))
         elif h == "deep_chain":
             names = [f"inc/chain{i}.inc" for i in range(4)]
             for i, nm in enumerate(names):
@@ -127,13 +131,14 @@ def apply(r, proj: dict, front_end: str, n: int) -> list[str]:
                 f"(discarded-target-{n})=\n## Heading inside", f"[ref-9]: https://example.com/9\n\n[x][ref-9]",
                 "{{ key1 }} [](#discarded-target)", f"```{{note}}\n[^nfn{n}]: nested footnote\n```\n\nuse[^nfn{n}]",
                 "$$\nx\n$$ (discarded-eq)", "plain"]))
+            # (outer fences are longer than any fence inside ``inner``, so that the whole of it really is the body)
             _append(files, doc, r.choice([
-                f"```{{figure}} img.png\n\n- not a paragraph caption\n\n{inner}\n```",
-                f"```{{figure}} img.png\n\n- not a paragraph caption\n\n{inner}\n```",
-                f"```{{list-table}}\n\n{inner}\n```",
-                f"```{{table}} T\n\n{inner}\n```",
-                f"```{{figure-md}}\nno image here\n\n{inner}\n\nthird block\n```",
-                f"````{{note}}\n```{{list-table}} T\n\n{inner}\n```\n````",
+                f"`````{{figure}} img.png\n\n- not a paragraph caption\n\n{inner}\n`````",
+                f"`````{{figure}} img.png\n\n- not a paragraph caption\n\n{inner}\n`````",
+                f"`````{{list-table}}\n\n{inner}\n`````",
+                f"`````{{table}} T\n\n{inner}\n`````",
+                f"`````{{figure-md}}\nno image here\n\n{inner}\n\nthird block\n`````",
+                f"``````{{note}}\n`````{{list-table}} T\n\n{inner}\n`````\n``````",
             ]) + f"\n\nafter [](#discarded-target-{n})")
             # (no reference to the discarded footnote from outside the body: docutils leaves such a footnote
             # detached, and Sphinx's latex footnote transform then raises for rST sources just the same - upstream)
